@@ -116,6 +116,9 @@ type Master struct {
 	// best effort); default false = the error reply of a live executor without that task.
 	LostIsSilent bool
 	lostExec     map[string]bool
+	// ReconcileOmitExecutor: reconciliation answers are master-generated updates; the executor id is an optional
+	// field of a task status and is left out of them when this is set
+	ReconcileOmitExecutor bool
 	// tasks lost while the framework was not connected (LoseWhileDisconnected): the implicit
 	// reconciliation after the resubscription is the only way the framework learns about them
 	reconLost map[string]bool
@@ -256,9 +259,12 @@ func (m *Master) call(ctx context.Context, c *scheduler.Call) (mesos.Response, e
 				}
 				if t.Alive {
 					r := mesos.REASON_RECONCILIATION
-					m.push(&scheduler.Event{Type: scheduler.Event_UPDATE, Update: &scheduler.Event_Update{Status: mesos.TaskStatus{
-						TaskID: mesos.TaskID{Value: t.ID}, State: &t.MesosState, AgentID: &mesos.AgentID{Value: t.AgentID},
-						ExecutorID: &mesos.ExecutorID{Value: t.ExecutorID}, Reason: &r, Source: mesos.SOURCE_MASTER.Enum()}}})
+					st := mesos.TaskStatus{TaskID: mesos.TaskID{Value: t.ID}, State: &t.MesosState, AgentID: &mesos.AgentID{Value: t.AgentID},
+						ExecutorID: &mesos.ExecutorID{Value: t.ExecutorID}, Reason: &r, Source: mesos.SOURCE_MASTER.Enum()}
+					if m.ReconcileOmitExecutor {
+						st.ExecutorID = nil
+					}
+					m.push(&scheduler.Event{Type: scheduler.Event_UPDATE, Update: &scheduler.Event_Update{Status: st}})
 				}
 			}
 		}
